@@ -593,9 +593,11 @@ def gen_unit(unit: dict):
     th = tier == "thorough"
     if kind in ("unary", "struct"):
         shape = tuple(unit["shape"])
-        rng = _rng(seed, f"{kind}:{shape}")
+        rng = _rng(seed, f"{kind}:{shape}:{unit.get('part', 0)}")
         pats = patterns_for_shape(shape, tier)
         for pi, p in enumerate(pats):
+            if pi % unit.get("parts", 1) != unit.get("part", 0): continue
+            if kind == "unary" and not th and len(shape) == 3 and pi % 3 != 1 and pi != 0: continue   # elementwise maps ignore the pattern
             fdt = "float32" if pi % 3 == 2 else "float64"
             if kind == "unary":
                 for dflt in DEFAULTS7:
@@ -605,7 +607,7 @@ def gen_unit(unit: dict):
                     for a in NAN_TO_NUM_ARGS:
                         yield {"op": "nan_to_num_", "ops": [r], "args": a}
                     di7 = DEFAULTS7.index(dflt) if dflt == dflt else 6
-                    for s in (SCALARS if (th or pi % 5 == 0) else [SCALARS[(pi + di7) % 5]]):
+                    for s in (SCALARS if (th or pi % 8 == 0) else [SCALARS[(pi + di7) % 5]]):
                         for name in ("lt", "le", "gt", "ge", "eq", "add", "mul", "sub", "div"):
                             yield {"op": name + "_scalar", "ops": [r], "args": [enc(s)]}
                         for name in ("clamp_min", "clamp_max", "__imul__scalar", "__itruediv__scalar"):
@@ -706,6 +708,7 @@ def gen_unit(unit: dict):
     elif kind == "binary":
         sa, sb = tuple(unit["shape"]), tuple(unit["shape2"])
         rng = _rng(seed, f"binary:{sa}:{sb}")
+        parts, part = unit.get("parts", 1), unit.get("part", 0)
         pa, pb = patterns_for_shape(sa, tier), patterns_for_shape(sb, tier)
         fa = [fill_data(p, rng, dtype="float64") for p in pa]
         fb = [fill_data(p, rng, dtype="float64") for p in pb]
@@ -718,6 +721,7 @@ def gen_unit(unit: dict):
         for i, j in itertools.product(range(len(pa)), range(len(pb))):
             n += 1
             if (i * 7 + j) % stride: continue
+            if (i + j) % parts != part: continue
             if not G.compatible(pa[i], pb[j], broadcast=(sa != sb)): continue      # ill-typed pair
             x = others[(i + 2 * j) % 6]; y = others[(3 * i + j + 1) % 6]
             for oi, (name, idv) in enumerate(ident.items()):
@@ -801,7 +805,7 @@ def gen_unit(unit: dict):
                 yield {"op": "expand_as", "ops": [fa[i], fb[j]], "args": []}
     elif kind == "prog":
         shape = tuple(unit["shape"])
-        rng = _rng(seed, f"prog:{shape}")
+        rng = _rng(seed, f"prog:{shape}:{unit.get('part', 0)}")
         pats = patterns_for_shape(shape, tier)
         nd = len(shape)
         steps = [["abs", []], ["exp", []], ["neg_", []], ["relu_", []], ["abs_", []], ["T", []], ["flatten", []],
@@ -821,6 +825,7 @@ def gen_unit(unit: dict):
                      and not (st[0] == "reshape" and st[1][0] == [1, -1])]
             if len(pats) > 12: pats = pats[::2]
         for pi, p in enumerate(pats):
+            if pi % unit.get("parts", 1) != unit.get("part", 0): continue
             r = fill_data(p, rng, dtype="float64", default=DEFAULTS7[pi % 7])
             if L == 2:
                 progs = itertools.product(steps, repeat=2)
@@ -928,9 +933,17 @@ def make_units(ctx: Ctx) -> List[dict]:
     for s in ([(), (2,), (3,), (4,), (2, 2), (1, 2), (2, 1), (2, 3), (6,), (1, 2, 2), (2, 1, 2), (0,), (0, 2)]
               if not th else _shapes(tier, 6)):
         U.append({"kind": "prog", "shape": list(s)})
+    V = []
     for u in U:
+        n = max(len(patterns_for_shape(tuple(u["shape"]), tier)), len(patterns_for_shape(tuple(u.get("shape2", u["shape"])), tier)))
+        parts = 1
+        if u["kind"] in ("unary", "struct", "prog") and n > 12: parts = 3
+        if u["kind"] == "binary" and n > 20 and u.get("stride", 1) == 1: parts = 6
+        for part in range(parts):
+            v = dict(u); v["parts"] = parts; v["part"] = part; V.append(v)
+    for u in V:
         u["tier"] = tier; u["seed"] = seed
-    return U
+    return V
 
 
 def run_bounded(ctx: Ctx) -> Report:
@@ -954,7 +967,7 @@ def run_bounded(ctx: Ctx) -> Report:
         ops: Dict[str, int] = {}
         for r in rs:
             for k, v in r["ops"].items(): ops[k] = ops.get(k, 0) + v
-        bound = {"unary": "all shapes numel<=6 ndim<=3 (+3 zero-size) x quick pattern set of T (incl. stride-0/transposed storage) x defaults {0,1,-inf,inf,2.5,-2.5,nan} x scalars {0,1,-1,2.5,inf}; float64/float32, bool, int64",
+        bound = {"unary": "all shapes numel<=6 ndim<=3 (+3 zero-size) x pattern set of T (every pattern for ndim<=2, every 3rd for ndim 3; incl. stride-0/transposed storage) x defaults {0,1,-inf,inf,2.5,-2.5,nan} x every unary/in-place op x nan_to_num_ argument sets x scalars {0,1,-1,2.5,inf} (all 5 on every 8th pattern, one rotating otherwise; every (op, default, scalar) triple occurs in every shape with >=5 patterns); float64/float32, bool, int64",
                  "struct": "same pattern set; every dim / permutation / index prefix / unsqueeze position / expand size vector over {n,1,2,3} / every target shape of equal numel with ndim<=3",
                  "binary": f"all pairs of patterns over equal shapes numel<={6 if ctx.thorough else 4} (+every 5th pair of (6,),(2,3),(3,2),(5,)) and over torch-broadcastable shape pairs; default pairs (id,id),(id,x),(x,id),(x,y) per op",
                  "where": "all (t,c) pattern pairs x 3 u patterns x c.default in {F,T} over equal shapes numel<=4 and 10 broadcasting shape triples",
